@@ -37,6 +37,9 @@ def shards(tier):
                 for rich in fields:
                     out.append(('connect', {'version': version, 'will': will, 'user': user, 'password': pw, 'rich': rich, 'ncp': ncp,
                                             'ncp_other': 1 if T else 0}))
+    for version in (31, 311):
+        for user in (0, 1):
+            out.append(('connect', {'version': version, 'will': 0, 'user': user, 'password': 0, 'rich': 'clientId', 'ncp': 1, 'stray_will_args': True}))
     for payload in ('bytes', 'str'):
         for nt in ((0, 1, 2, 3) if T else (0, 1, 2)):
             for npl in ((0, 1, 2, 3) if T else (0, 2)):
